@@ -37,7 +37,7 @@ class GetRegex(Contract):
         c = a["cls"].sym
         out = []
         if not (isinstance(result, VObj) and result.kind == "DNARegex"):
-            return [("returns-a-regex", tm.FALSE)]
+            return [("returns-a-regex", None)]
         out.append(("pattern-is-the-structure-of-the-asked-class",
                     tm.eq(st.get(result, "pattern").t, tm.app("structure", STR, c))))
         out.append(("compiled-from-that-pattern",
@@ -180,7 +180,7 @@ class BaseMatch(Contract):
         from pyvc.models import re_at, re_window
         text, n, doubled, pat, linear = match_terms(ex, pre, a["self"])
         if not (isinstance(result, VObj) and result.kind == "SeqMatch"):
-            return [("returns-a-match", tm.FALSE)]
+            return [("returns-a-match", None)]
         m = st.get(result, "match")
         start, ln = st.get(m, "pos").t, st.get(m, "len").t
         d = regex_c._data_term(ex, pre, None, doubled, text)
